@@ -357,6 +357,15 @@ def firstPara (root : DNode) : Option DNode := (paragraphs root).head?
 def filterParaWithout (root : DNode) (k excl : Str) : List DNode :=
   (paragraphs root).filter fun p => !hasField excl p && hasField k p
 
+/-- `paragraphs().skip(1).filter(|p| p.contains_key(k))` (copyright `iter_files`: the first
+    paragraph is the header, whatever fields it has) -/
+def filterParaTail (root : DNode) (k : Str) : List DNode := ((paragraphs root).drop 1).filter (hasField k)
+
+/-- `paragraphs().skip(1).filter(|p| !p.contains_key(excl) && p.contains_key(k))` (copyright
+    `iter_licenses`) -/
+def filterParaWithoutTail (root : DNode) (k excl : Str) : List DNode :=
+  ((paragraphs root).drop 1).filter fun p => !hasField excl p && hasField k p
+
 /-- the paragraphs a document-level getter row yields -/
 def paraSem (r : Row) (root : DNode) : Option (List DNode) :=
   match r.shape, r.names with
@@ -364,6 +373,8 @@ def paraSem (r : Row) (root : DNode) : Option (List DNode) :=
   | .findPara, [k] => some (findPara root k).toList
   | .filterPara, [k] => some (filterPara root k)
   | .filterParaWithout excl, [k] => some (filterParaWithout root k excl)
+  | .filterParaTail, [k] => some (filterParaTail root k)
+  | .filterParaWithoutTail excl, [k] => some (filterParaWithoutTail root k excl)
   | _, _ => none
 
 /-! ## copyright `Header::fix` -/
